@@ -389,6 +389,13 @@ func writeEvidence(prop, tier string, seed int, results []*FuncResult, reps []*O
 		for _, a := range r.Assumptions {
 			assumptions[a] = true
 		}
+		if r.e != nil {
+			r.e.axiomMu.Lock()
+			for n := range r.e.axiomUsed {
+				assumptions[n] = true
+			}
+			r.e.axiomMu.Unlock()
+		}
 		for k, v := range r.Models {
 			models[k] = v
 		}
